@@ -1124,6 +1124,11 @@ def mon_C14(case):
             for sid in c["sess"]:
                 if t not in ln.sess.get(sid, set()):
                     out.append((i, f"C14 after `{w[0]}` topic {t} lists session {sid} but the session does not list the topic"))
+        if w[0] in ("sub", "leave", "deltopic", "delsub", "newgrp", "pub", "setsub", "setdesc", "settags", "delmsg"):
+            # one request, one reply: an eviction notice (205) is not a reply
+            nrep = len([f for sid, f in ln.frames if sid == w[1] and f.startswith("ctrl ") and not f.startswith("ctrl 205 ")])
+            if nrep > 1:
+                out.append((i, f"C14 request `{w[0]}` from {w[1]} was answered twice"))
         if w[0] in ("sub", "leave", "deltopic", "delsub", "newgrp") and not replied(ln, w[1]):
             k = silent_why(case, i, w, ln)
             out.append((i, f"C14 {k}" if k else f"C14 request `{w[0]}` from {w[1]} was not answered"))
